@@ -172,7 +172,7 @@ def build_cases(tier):
     if tier == "quick":
         nrand, nobj = 320, 50
     else:
-        nrand, nobj = 5000, 1000
+        nrand, nobj = 12000, 2500
     rand = G.random_cases(s * 7919 + 5, nrand, depths=(2, 3, 3, 4) if tier == "quick" else (2, 3, 3, 4, 4, 5))
     objs = G.object_core() + G.object_cases(s * 104729 + 11, nobj)
     if tier == "quick":
@@ -256,7 +256,7 @@ def main(tier):
     run_items = [item_of(cases[i]) for i in run_idx]
 
     # ---- TLC: every case x every assignment (in a thread, while the real code runs)
-    BATCH = 2500
+    BATCH = 2500 if tier == "quick" else 1200   # machine mode carries the denotation in every state
     machine = "1" if tier == "thorough" else "0"   # thorough: leaf-by-leaf machine + denotation
 
     def run_all_tlc():
@@ -368,7 +368,7 @@ def main(tier):
                 key = KNOWN_KEYS["starrecv"]
             elif et == "AssertionError" and sc["dislazy"]:
                 key = KNOWN_KEYS["dislazy"]
-            elif et == "TypeError" and "missing 1 required positional argument" in msg and sc["veclazy"]:
+            elif et == "TypeError" and "argument" in msg and sc["veclazy"]:
                 key = KNOWN_KEYS["veclazy"]
             ck.violation(
                 f"building a well-formed expression failed: {et}: {msg}",
@@ -387,6 +387,8 @@ def main(tier):
             key = None
             if o[0] == "exc" and o[1] == "AttributeError" and "__radd__" in o[2] and sc["concat"]:
                 key = KNOWN_KEYS["concat"]
+            elif o[0] == "exc" and o[1] == "TypeError" and "argument" in o[2] and sc["veclazy"]:
+                key = KNOWN_KEYS["veclazy"]   # random position: the dropped `self` shows when sampling
             bad = True
             ck.violation(
                 f"sampling a well-formed expression failed: {o}",
